@@ -1,30 +1,31 @@
 #!/bin/bash
-# usage: tools/confirm_mutant.sh <seedout-dir> <name>  — confirms in a scratch worktree: builds, existing tests pass, demo fails with / passes without.
+# usage: tools/confirm_mutant.sh <seedout-dir> <name>  — confirms a seeded change in a scratch worktree of /repo HEAD:
+# it builds, the existing tests of the touched packages and of ./runtime/... pass with it, the demonstration fails with it and passes without.
+# Writes <seedout-dir>/confirmation.txt. The scratch worktree is removed afterwards.
 set -u
-SRC="$1"; NAME="$2"; WT=/tmp/wt/confirm_$NAME; LOG=/tmp/seedout/confirm_$NAME.log
+SRC="$1"; NAME="$2"; WT=/tmp/wt/confirm_$NAME; LOG="$SRC/confirmation.txt"
 export GOFLAGS=-mod=mod GOPROXY=off
 exec > "$LOG" 2>&1
 git -C /repo worktree add -q --detach "$WT" HEAD || exit 2
 cd "$WT"
-git apply "$SRC/patch.diff" || { echo "PATCH-FAILS"; exit 2; }
+git apply "$SRC/patch.diff" || { echo "PATCH-FAILS"; cd /; git -C /repo worktree remove --force "$WT"; exit 2; }
 PKGS=$(git diff --name-only | xargs -n1 dirname | sort -u | sed 's|^|./|' | tr '\n' ' ')
-echo "touched packages: $PKGS"
+echo "repo HEAD: $(git -C /repo rev-parse --short HEAD); touched packages: $PKGS"
 go build ./... && echo BUILD-OK || echo BUILD-FAIL
-go test -vet=off -count=1 $PKGS ./runtime/... > existing.log 2>&1; echo "EXISTING-TESTS exit=$? (with change)"; grep -E "^(ok|FAIL|---)" existing.log | head -20
-# demo
+go test -vet=off -count=1 $PKGS ./runtime/... ./interpreter/... ./bbq/... ./stdlib/... ./sema/... > existing.log 2>&1; echo "EXISTING-TESTS exit=$? (with change; touched packages + runtime, interpreter, bbq, stdlib, sema)"; grep -E "^(FAIL|---)" existing.log | head -20
+DEMOPKG=$(python3 -c "import json;print(json.load(open('$SRC/agent_meta.json')).get('demo_package','runtime').strip('./'))" 2>/dev/null || echo runtime)
 for f in "$SRC"/*_test.go; do
   [ -f "$f" ] || continue
-  base=$(basename "$f")
+  base=$(basename "$f"); dest="$DEMOPKG/zz_${base#*zz_}"
   case "$base" in
-    interpreter_*) dest=interpreter/${base#interpreter_};;
-    runtime_*) dest=runtime/${base#runtime_};;
-    *) dest=runtime/$base;;
+    interpreter_zz*) dest=interpreter/${base#interpreter_};;
+    runtime_zz*) dest=runtime/${base#runtime_};;
   esac
   cp "$f" "$dest"; echo "demo -> $dest"
 done
-DEMOPK=$(ls interpreter/zz_* runtime/zz_* 2>/dev/null | xargs -n1 dirname | sort -u | sed 's|^|./|' | tr '\n' ' ')
-go test -vet=off -count=1 -run 'ZZ|Demo|C[0-9][0-9]a' $DEMOPK > demo_with.log 2>&1; echo "DEMO-WITH-CHANGE exit=$?"; grep -E "^(ok|FAIL|--- FAIL)" demo_with.log | head
+DEMOPK=$(git status --short | grep '^??' | awk '{print $2}' | grep _test.go | xargs -n1 dirname | sort -u | sed 's|^|./|' | tr '\n' ' ')
+go test -vet=off -count=1 -run 'ZZ|Demo|C[0-9][0-9][a-z]' $DEMOPK > demo_with.log 2>&1; echo "DEMO-WITH-CHANGE exit=$?"; grep -E "^(ok|FAIL|--- FAIL)" demo_with.log | head
 git apply -R "$SRC/patch.diff"
-go test -vet=off -count=1 -run 'ZZ|Demo|C[0-9][0-9]a' $DEMOPK > demo_without.log 2>&1; echo "DEMO-WITHOUT-CHANGE exit=$?"; grep -E "^(ok|FAIL|--- FAIL)" demo_without.log | head
+go test -vet=off -count=1 -run 'ZZ|Demo|C[0-9][0-9][a-z]' $DEMOPK > demo_without.log 2>&1; echo "DEMO-WITHOUT-CHANGE exit=$?"; grep -E "^(ok|FAIL|--- FAIL)" demo_without.log | head
 cd /; git -C /repo worktree remove --force "$WT"
 echo DONE
